@@ -124,6 +124,11 @@ class ProgProp(Prop):
     def accept_case(self, c):
         return True
 
+    def compile_failure(self, case, log):
+        """clauses of the property that a compile failure of the harness program shows to be violated (the
+        program static_asserts what the property promises about the shell's interface); [] = only a broken tie"""
+        return []
+
     def gen_scripts(self, rng, case, spec):
         return [X.gen_script(rng, case, spec) for _ in range(self.scripts_per_program)]
 
@@ -171,7 +176,12 @@ class ProgProp(Prop):
                            'model': {'ir': ir is not None}, 'failed': [], 'noshrink': True}
                     # a program from the valid, compilable domain that does not compile: the generated text
                     # deviates from what the model (whose prediction the driver static_asserts) says
-                    disagreements.append(rec)
+                    clauses = self.compile_failure(c, p.log or '') if ir is not None and p.impl_err is None else []
+                    if clauses:
+                        rec['failed'] = clauses
+                        failures.append(rec)
+                    else:
+                        disagreements.append(rec)
                     continue
                 scripts = self.gen_scripts(rng, c, p.spec)
                 runs = [p.run(s) for s in scripts]
